@@ -24,7 +24,7 @@ from harness.asyncgen import TrackLoop, site_class
 from harness.core import Atom
 
 ID = "C36"
-LEAN_MODULES = ["JinjaV.Props.C36"]
+LEAN_MODULES = ["JinjaV.Props.C36", "JinjaV.Props.C36Adv"]
 GEN = [translate.async_sites.gen]
 LEVEL = "proof"
 TRUSTED = [
@@ -61,7 +61,10 @@ CLAIM = dict(
          "finished (normally, by aclose, by cancellation) every opened generator is closed, with no finaliser in the model; "
          "bracketed_root_not_abandoned; allBracketed_iff_no_bare; no_attack_closed — without stop/cancel even bare iteration closes everything; "
          "bare_can_leak_on_stop / _on_cancel / bare_abandons_subtree — a bare open leaves the generator (and everything it "
-         "opened) unclosed; library_sites_closing, entry_points_closing, library_entry_closed — over Gen/AsyncSites.lean "
+         "opened) unclosed; (Props/C36Adv.lean) exec_payload, exec_rel, run_depends_on_first_attack, "
+         "firstAttack_singleAttack, run_eq_single_attack - a run depends on the adversary only through the position of its "
+         "first attack (later choices are never consumed), so the single attacks enumerated by the tie are all adversaries; "
+         "library_sites_closing, entry_points_closing, library_entry_closed — over Gen/AsyncSites.lean "
          "(regenerated from environment.py, nativetypes.py, runtime.py, async_utils.py on every run) no library site "
          "iterates bare, so render_async / generate_async / make_module_async / super() over a fully bracketed template "
          "body close everything. Tie: L-sem model-vs-CPython on random programs x every attack position; L-code every "
@@ -76,8 +79,7 @@ CLAIM = dict(
          "machinery (roots, blocks, includes, parents, loop filters, generate_async); async generators supplied as data "
          "(context values, results of user functions, results of async filters) are iterated bare through auto_aiter and "
          "are the caller's to close - counted in the evidence, not part of the claim. Partial: the static tree "
-         "over-approximates dynamic runs by construction of the classifier, not by proof; that choices after the first "
-         "attack are never consumed is checked on the model per run, not proved.",
+         "over-approximates dynamic runs by construction of the classifier, not by proof.",
     design_ref="§5 C36",
 )
 
@@ -269,7 +271,7 @@ def l_sem(ctx, res, cov):
             adv = [] if attack is None else [False] * attack + [True]
             reqs.append([Atom("gentree-run"), stmts, adv])
             meta.append((stmts, attack, got, src))
-            if attack is not None:      # choices after the first attack are never consumed: any suffix gives the same run
+            if attack is not None:      # theorem run_depends_on_first_attack, also exercised through the driver
                 suffix_reqs.append(([Atom("gentree-run"), stmts, adv + [rng.random() < 0.5 for _ in range(4)]], len(reqs) - 1))
         shapes.add(core.sx(stmts))
     replies = core.driver_batch(reqs)
